@@ -329,6 +329,9 @@ def iterative_rejection_helper(
 
     if max_prior_samples is None:
         max_prior_samples = n_total_samples
+    else:
+        # the budget is an upper limit: it can't exceed what the library holds
+        max_prior_samples = min(max_prior_samples, n_total_samples)
 
     # The "magic numbers" below control how fast the iterative batches grow
     # in size, and the maximum number of iterations
